@@ -1,18 +1,363 @@
-//! C08 — (stub, under construction)
+//! C08 — subsetting preserves the character mapping of retained glyphs.
+//!
+//! Reference-map oracle: the expected map {character -> new glyph id} is computed from the source
+//! font's selected cmap subtable as decoded by the independent cmap reader and from the requested
+//! id list; the observed map is the output's cmap decoded by the same independent reader (complete
+//! enumeration of the emitted subtable) and, separately, `Font::lookup_glyph_index` on the reloaded
+//! output.
 
+use super::c07::common::*;
+use super::c07::subset_case;
 use super::Prop;
 use crate::rt::*;
+use crate::sfnt::cmap::{self as icmap, EncKind};
+use crate::sfnt::{self, be16};
+use allsorts::binary::read::ReadScope;
+use allsorts::font::MatchingPresentation;
+use allsorts::font_data::FontData;
+use allsorts::Font;
+use std::collections::{BTreeMap, BTreeSet, HashMap};
 
-pub struct C08 {}
+pub struct C08 {
+    w: Workload,
+}
 
 impl C08 {
-    pub fn new(_cx: &mut Ctx) -> C08 {
-        C08 {}
+    pub fn new(cx: &mut Ctx) -> C08 {
+        C08 { w: Workload::new(cx) }
+    }
+}
+
+fn kind_name(k: EncKind) -> &'static str {
+    match k {
+        EncKind::Unicode => "unicode",
+        EncKind::Symbol => "symbol",
+        EncKind::MacRoman => "macroman",
+        EncKind::Big5 => "big5",
+    }
+}
+
+struct Expect {
+    map: BTreeMap<u32, u16>,
+    /// characters of glyphs that were only pulled in as composite components: new id or 0
+    optional: BTreeSet<u32>,
+    /// characters reached from two source codes with different glyphs: not judged
+    ambiguous: BTreeSet<u32>,
+}
+
+fn expectation(case: &Case, sel: &CmapSel, mac: bool) -> Expect {
+    let src = &case.src;
+    let pos: HashMap<u16, u16> = case.ids.iter().enumerate().map(|(k, g)| (*g, k as u16)).collect();
+    let extras = src.closure_extras(&case.ids);
+    let mut e = Expect { map: BTreeMap::new(), optional: BTreeSet::new(), ambiguous: BTreeSet::new() };
+    for (c, g) in &sel.pairs {
+        let ch = match source_char(*c, sel.kind, mac, src.os2_first_char) {
+            Some(ch) => ch,
+            None => continue,
+        };
+        if mac && mac_byte(ch).is_none() {
+            continue;
+        }
+        if let Some(new) = pos.get(g) {
+            match e.map.get(&ch) {
+                Some(x) if x != new => {
+                    e.ambiguous.insert(ch);
+                }
+                _ => {
+                    e.map.insert(ch, *new);
+                }
+            }
+        } else if extras.contains(g) {
+            e.optional.insert(ch);
+        }
+    }
+    for a in &e.ambiguous {
+        e.map.remove(a);
+    }
+    e
+}
+
+fn mismatch_sig(fmt: u16, want: u16, got: u16) -> String {
+    if fmt == 0 && want > 255 && got == (want & 0xFF) {
+        "format0:glyph-id-above-255-truncated".to_string()
+    } else if got == 0 {
+        format!("format{}:retained-char-unmapped", fmt)
+    } else {
+        format!("format{}:retained-char-wrong-glyph", fmt)
+    }
+}
+
+pub fn check_cmap(cx: &mut Ctx, rng: &mut Rng, case: &Case, out: &[u8]) {
+    let src = &case.src;
+    let nreq = case.ids.len();
+    let sel = match &src.cmap {
+        Some(s) if s.kind != EncKind::Big5 => s,
+        _ => {
+            cx.class("source:no-judgeable-cmap");
+            return;
+        }
+    };
+    let target = match &case.op {
+        Op::Subset => Target::Unrestricted,
+        Op::Prince { target, .. } => target.clone(),
+        _ => return,
+    };
+    let font = match sfnt::Font::parse(out) {
+        Some(f) => f,
+        None => {
+            cx.violation("output-readable", "output-unparsable", case.witness("table directory".into()));
+            return;
+        }
+    };
+    let ocmap = font.gets("cmap");
+    match &target {
+        Target::Omit => {
+            if ocmap.is_some() {
+                cx.violation("target", "omit-target-has-cmap", case.witness("the Omit target produced a cmap table".into()));
+            } else {
+                cx.class("target:omit-no-cmap");
+                cx.nontrivial(case.hash());
+            }
+            return;
+        }
+        Target::Supplied(a) => {
+            let ok = (|| {
+                let c = ocmap?;
+                let recs = icmap::read_records(c)?;
+                if recs.len() != 1 || recs[0].platform != 1 || recs[0].encoding != 0 {
+                    return None;
+                }
+                let off = recs[0].offset as usize;
+                if be16(c, off)? != 0 {
+                    return None;
+                }
+                Some(c.get(off + 6..off + 262)? == &a[..])
+            })();
+            if ok != Some(true) {
+                cx.violation("target", "supplied-array-not-used", case.witness("the output cmap is not a single (1,0) format 0 subtable holding the supplied array".into()));
+            } else {
+                cx.class("target:supplied-array-verbatim");
+                cx.nontrivial(case.hash());
+            }
+            return;
+        }
+        _ => {}
+    }
+    let mac = matches!(target, Target::MacRoman);
+    let exp = expectation(case, sel, mac);
+    // ---- observed: independent reader -----------------------------------------------------------
+    let (ocmap, okind, off, fmt, pairs) = match (|| {
+        let c = ocmap?;
+        let recs = icmap::read_records(c)?;
+        let (i, k) = icmap::select(&recs)?;
+        let off = recs[i].offset as usize;
+        let fmt = icmap::subtable_format(c, off)?;
+        let pairs = icmap::enumerate(c, off)?;
+        Some((c, k, off, fmt, pairs))
+    })() {
+        Some(x) => x,
+        None => {
+            cx.violation("output-readable", "output-cmap-unreadable", case.witness("the independent reader cannot select / decode a cmap subtable of the output".into()));
+            return;
+        }
+    };
+    let _ = (ocmap, off);
+    let mut observed: BTreeMap<u32, u16> = BTreeMap::new();
+    for (code, g) in &pairs {
+        let ch = match okind {
+            EncKind::MacRoman => {
+                if *code < 256 && !MAC_AMBIGUOUS_BYTES.contains(&(*code as u8)) {
+                    MAC_ROMAN_PY[*code as usize]
+                } else {
+                    continue;
+                }
+            }
+            _ => *code,
+        };
+        observed.insert(ch, *g);
+    }
+    let mut exp = exp;
+    if okind == EncKind::MacRoman {
+        // bytes / characters on which Mac Roman tables legitimately differ are not judged
+        let amb: Vec<u32> = exp.map.keys().copied().filter(|c| mac_ambiguous_char(*c)).collect();
+        for a in amb {
+            exp.map.remove(&a);
+            exp.ambiguous.insert(a);
+        }
+    }
+    let wit = |what: String| {
+        let mut j = case.witness(what);
+        if let J::O(items) = &mut j {
+            items.push(("source_cmap".to_string(), J::s(format!("({},{}) format {} {}", sel.platform, sel.encoding, sel.format, kind_name(sel.kind)))));
+            items.push(("output_cmap".to_string(), J::s(format!("format {} {}", fmt, kind_name(okind)))));
+            items.push(("target".to_string(), J::s(if mac { "MacRoman" } else { "Unrestricted" })));
+        }
+        j
+    };
+    for (ch, new) in &exp.map {
+        let got = observed.get(ch).copied().unwrap_or(0);
+        if got != *new {
+            let sig = mismatch_sig(fmt, *new, got);
+            cx.violation("cmap-map", &sig, wit(format!("character {:#x} (source glyph {}) must map to new glyph {}, the output cmap maps it to {}", ch, case.ids[*new as usize], new, got)));
+            return;
+        }
+    }
+    let mut component_chars = 0;
+    for (ch, got) in &observed {
+        if exp.map.contains_key(ch) || exp.ambiguous.contains(ch) {
+            continue;
+        }
+        if exp.optional.contains(ch) && *got as usize >= nreq {
+            component_chars += 1;
+            continue;
+        }
+        cx.violation("cmap-map", &format!("format{}:unretained-char-mapped", fmt), wit(format!("character {:#x} maps to glyph {} in the output but to no retained glyph in the source", ch, got)));
+        return;
+    }
+    // ---- observed: allsorts' own reader on the reloaded output ------------------------------------
+    let mut probes: Vec<u32> = exp.map.keys().copied().collect();
+    let mut src_chars: Vec<u32> = sel.pairs.iter().filter_map(|(c, _)| source_char(*c, sel.kind, mac, src.os2_first_char)).collect();
+    if src_chars.len() > 1500 {
+        rng.shuffle(&mut src_chars);
+        src_chars.truncate(1500);
+    }
+    if probes.len() > 3000 {
+        rng.shuffle(&mut probes);
+        probes.truncate(3000);
+    }
+    probes.extend(src_chars);
+    probes.extend([0u32, 0x20, 0x41, 0x7E, 0x7F, 0x80, 0xA4, 0xFF, 0x100, 0x2020, 0xEFFF, 0xF020, 0xF041, 0xF0FF, 0xF100, 0xFFFD, 0xFFFE, 0xFFFF, 0x10000, 0x1F600, 0x10FFFF]);
+    for _ in 0..30 {
+        probes.push(if rng.bool() { rng.below(0x10000) as u32 } else { rng.below(0x110000) as u32 });
+    }
+    if let Some(&last) = exp.map.keys().last() {
+        probes.extend([last.wrapping_add(1), last.wrapping_sub(1)]);
+    }
+    let out_first = font.gets("OS/2").and_then(|o| be16(o, 64)).unwrap_or(0x20) as u32;
+    let mut jobs: Vec<(char, u16)> = Vec::new();
+    for p in probes {
+        let ch = match char::from_u32(p) {
+            Some(c) => c,
+            None => continue,
+        };
+        // the code allsorts is expected to look up for this character in the output subtable
+        let key = match okind {
+            EncKind::Unicode => p,
+            EncKind::Symbol => {
+                let c0 = if (0xF000..=0xF0FF).contains(&p) { p - 0xF000 } else { p };
+                (c0 + out_first).wrapping_sub(0x20)
+            }
+            EncKind::MacRoman => {
+                if mac_byte(p).is_some() || (p >= 0x100 && !(0xF000..=0xF0FF).contains(&p) && !mac_ambiguous_char(p)) {
+                    p
+                } else {
+                    continue;
+                }
+            }
+            EncKind::Big5 => continue,
+        };
+        if exp.optional.contains(&key) || exp.ambiguous.contains(&key) || p == 0x25CC {
+            continue;
+        }
+        jobs.push((ch, exp.map.get(&key).copied().unwrap_or(0)));
+    }
+    let res = cx.guard("reload-and-lookup", out.len(), || -> Result<Vec<(char, u16, u16)>, String> {
+        let fd = ReadScope::new(out).read::<FontData<'_>>().map_err(|e| format!("{:?}", e))?;
+        let p = fd.table_provider(0).map_err(|e| format!("{:?}", e))?;
+        let mut f = Font::new(p).map_err(|e| format!("{:?}", e))?;
+        Ok(jobs.iter().map(|(ch, want)| (*ch, *want, f.lookup_glyph_index(*ch, MatchingPresentation::NotRequired, None).0)).filter(|(_, w, g)| w != g).take(1).collect())
+    });
+    match res {
+        None => return,
+        Some(Err(e)) => {
+            cx.violation("reload", "output-rejected-by-font-new", wit(format!("Font::new on the output: {}", e)));
+            return;
+        }
+        Some(Ok(bad)) => {
+            if let Some((ch, want, got)) = bad.first() {
+                cx.violation("lookup-glyph-index", &mismatch_sig(fmt, *want, *got), wit(format!("Font::lookup_glyph_index({:#x}) on the reloaded output is {} expected {}", *ch as u32, got, want)));
+                return;
+            }
+        }
+    }
+    // ---- classes ------------------------------------------------------------------------------------
+    cx.class(&format!("out-cmap:format{}-{}", fmt, kind_name(okind)));
+    cx.class(&format!("src-cmap:{}-format{}", kind_name(sel.kind), sel.format));
+    cx.class(if mac { "target:macroman" } else { "target:unrestricted" });
+    cx.class(&format!("container:{}", case.container.name()));
+    cx.class(match src.kind {
+        Kind::TrueType => "source:truetype",
+        Kind::Cff => "source:cff",
+        Kind::Cff2 => "source:cff2",
+    });
+    if component_chars > 0 {
+        cx.class("component-only-char-mapped");
+    }
+    if !exp.optional.is_empty() {
+        cx.class("component-only-char-present");
+    }
+    if !exp.map.is_empty() {
+        let keys: Vec<u32> = exp.map.keys().copied().collect();
+        for w in keys.windows(2) {
+            let gap = w[1] - w[0] - 1;
+            if (1..=5).contains(&gap) {
+                cx.class(&format!("retained-char-gap:{}", gap));
+            }
+        }
+        let mut per_glyph: HashMap<u16, u32> = HashMap::new();
+        for g in exp.map.values() {
+            *per_glyph.entry(*g).or_insert(0) += 1;
+        }
+        if per_glyph.values().any(|c| *c > 1) {
+            cx.class("two-chars-same-glyph");
+        }
+        if exp.map.contains_key(&0xFFFF) {
+            cx.class("char-0xFFFF-retained");
+        }
+        if keys.iter().any(|c| *c > 0xFFFF) {
+            cx.class("astral-char-retained");
+        }
+        let all_mac = sel.kind != EncKind::Symbol && keys.iter().all(|c| mac_byte(*c).is_some());
+        if all_mac && exp.map.values().any(|g| *g > 255) {
+            cx.class("macroman-chars-only-with-glyph-above-255");
+        }
+        if nreq > 255 {
+            cx.class("more-than-255-glyphs");
+        }
+        cx.nontrivial(case.hash());
+    } else {
+        cx.class("no-retained-char");
+    }
+    if cx.want_sample() {
+        cx.sample(J::obj(vec![
+            ("font", J::s(src.name.clone())),
+            ("ids", J::U(nreq as u64)),
+            ("op", J::s(case.op.name())),
+            ("container", J::s(case.container.name())),
+            ("retained_chars", J::U(exp.map.len() as u64)),
+            ("output_cmap", J::s(format!("format {} {}", fmt, kind_name(okind)))),
+        ]));
     }
 }
 
 impl Prop for C08 {
-    fn case(&mut self, cx: &mut Ctx, _rng: &mut Rng) {
-        cx.inconclusive("not-implemented");
+    fn case(&mut self, cx: &mut Ctx, rng: &mut Rng) {
+        let (mut case, _) = match subset_case(&mut self.w, cx, rng, [14, 5, 3, 1, 1, 2], None) {
+            Some(c) => c,
+            None => return,
+        };
+        // the Prince API returns a bare CFF table for CFF sources: no cmap to judge
+        if case.src.kind != Kind::TrueType {
+            case.op = Op::Subset;
+        }
+        let out = match run_op(cx, &case) {
+            None => return,
+            Some(Err(e)) => {
+                cx.class(&format!("op-error:{}", e.chars().take(40).collect::<String>()));
+                return;
+            }
+            Some(Ok(o)) => o,
+        };
+        check_cmap(cx, rng, &case, &out);
     }
 }
